@@ -146,12 +146,17 @@ impl<'a, 'c, 'd> Ev<'a, 'c, 'd> {
             SType::Record(named, fields) => {
                 // add a reader field with a default
                 let fname = self.fresh("added");
-                let ftype = match self.c.pick(5) {
+                let ftype = match self.c.pick(9) {
                     0 => prim(SType::Int),
                     1 => prim(SType::String),
                     2 => SNode::prim(SType::Union(vec![prim(SType::Null), prim(SType::Long)])),
                     3 => SNode::prim(SType::Array(Box::new(prim(SType::Boolean)))),
-                    _ => SNode::prim(SType::Map(Box::new(prim(SType::Double)))),
+                    4 => SNode::prim(SType::Map(Box::new(prim(SType::Double)))),
+                    // unions whose default (a value of the FIRST branch) has, as plain JSON, the kind of a later branch too
+                    5 => SNode::prim(SType::Union(vec![prim(SType::Long), prim(SType::Int)])),
+                    6 => SNode::prim(SType::Union(vec![prim(SType::Double), prim(SType::Null), prim(SType::Int)])),
+                    7 => SNode::prim(SType::Union(vec![prim(SType::Bytes), prim(SType::String)])),
+                    _ => SNode::prim(SType::Union(vec![prim(SType::Float), prim(SType::Long)])),
                 };
                 let md = std::collections::BTreeMap::new();
                 let dv = vgen::gen_value_cfg(self.c, &ftype, self.env, &md, &vgen::VgenCfg::for_defaults());
